@@ -672,3 +672,49 @@ type ghostPitcsEntrySlice = []*nameTreePitEntry
 //@   loop 2 invariant entry != nil && forall(func(n *pitCsTreeNode) bool { return !pitcsDeadLeaf(n) })
 //@   loop 2 invariant forall(func(k uint64) bool { return mapHas(entry.inRecords, k) ==> entry.inRecords[k] != nil })
 //@   loop 2 invariant forall(func(k uint64) bool { return visited(k) && mapHas(entry.inRecords, k) ==> !(k != inFace && entry.inRecords[k].LatestNonce == *interest.NonceV) })
+
+// ---------------------------------------------------------------------------------------
+// Refinement of the interface contracts the forwarding pipelines are verified against (fw/table/zz_verif_contracts.go):
+// concrete contracts of the methods of *nameTreePitEntry / *PitCsTree that carry the interface clauses.
+//   pitcsRecordsInv(e): every in-record and out-record of the entry is non-nil.
+// ---------------------------------------------------------------------------------------
+
+// pitcsInv(p): the representation invariant of a PIT-CS tree as its methods require it (the universally quantified parts
+// range over every node / entry, as in the concrete contracts): root at depth 0 with a children map, token map present
+// with non-nil values, tree shape and links, depth bounds and parent depth, CS entry and PIT entries point back to their
+// node, in-records non-nil, no dead branch. (The separation clause "two nodes never share a children map" cannot be
+// written in Go, which has no map equality; it is stated next to pitcsInv wherever pitcsInv is required.)
+func pitcsInv(p *PitCsTree) bool {
+	return p.root != nil && p.root.depth == 0 && p.root.children != nil && p.pitTokenMap != nil &&
+		forall(func(k uint32) bool { return implies(mapHas(p.pitTokenMap, k), p.pitTokenMap[k] != nil) }) &&
+		forall(func(n *pitCsTreeNode) bool {
+			return implies(n.parent != nil, n.component != nil && n.parent.children != nil)
+		}) &&
+		forall(func(n *pitCsTreeNode, k uint64) bool {
+			return implies(mapHas(n.children, k), n.children[k] != nil && n.children[k].depth == n.depth+1 && n.children[k].parent == n && n.children[k].children != nil && n.children[k].component != nil)
+		}) &&
+		forall(func(n *pitCsTreeNode) bool { return 0 <= n.depth && n.depth <= 281474976710656 }) &&
+		forall(func(n *pitCsTreeNode) bool { return implies(n.parent != nil, n.depth == n.parent.depth+1) }) &&
+		forall(func(n *pitCsTreeNode) bool { return implies(n.csEntry != nil, n.csEntry.node == n) }) &&
+		forall(func(n *pitCsTreeNode, i int) bool {
+			return implies(0 <= i && i < len(n.pitEntries), n.pitEntries[i] != nil && n.pitEntries[i].node == n)
+		}) &&
+		forall(func(e *nameTreePitEntry, k uint64) bool {
+			return implies(mapHas(e.inRecords, k), e.inRecords[k] != nil)
+		}) &&
+		forall(func(n *pitCsTreeNode) bool { return !pitcsDeadLeaf(n) })
+}
+
+func pitcsRecordsInv(e *nameTreePitEntry) bool {
+	return forall(func(k uint64) bool { return implies(mapHas(e.inRecords, k), e.inRecords[k] != nil) }) &&
+		forall(func(k uint64) bool { return implies(mapHas(e.outRecords, k), e.outRecords[k] != nil) })
+}
+
+// (InRecords/OutRecords are methods of the embedded basePitEntry; the method of *nameTreePitEntry is a compiler-made
+// wrapper whose receiver cannot be named in a contract, so their two interface contracts cannot be put through the
+// refinement check; the getters are one-line field reads: result == field holds by inspection, the non-nil-values clause
+// is the entry invariant pitcsRecordsInv.)
+
+//@ func (*nameTreePitEntry).PitCs
+//@   requires e.pitCsTable != nil
+//@   ensures result != nil && typeIs(result, "*PitCsTree") && result.(*PitCsTree) == e.pitCsTable
